@@ -99,6 +99,22 @@ def find_prevnext(tree):
   return out
 
 
+def used_in_sort_by(dv):
+  """Set of (table_id, col_id) named in a legacy `sort_by=` argument of some formula. The engine
+  rewrites `order_by` strings on a rename but not these, so D0 leaves such columns' names alone."""
+  used = set()
+  for c in dv.all_cols():
+    if not c.formula or "sort_by" not in c.formula:
+      continue
+    tree = parse(c.formula)
+    if tree is None:
+      continue
+    for lk in find_lookups(tree):
+      for name, _d in _sort_names(lk.sort_by):
+        used.add((lk.table, name))
+  return used
+
+
 def used_as_index(dv):
   """Set of (table_id, col_id) that some formula currently uses as a lookup key, an order_by /
   sort_by column, or a PREVIOUS/NEXT/RANK group/order column; plus summary group-by source columns
